@@ -23,3 +23,4 @@ def run(ck):
     geometry.r14_hull_needs_constant_sign_of_w(ck, P)
     geometry.r15_empty_image_not_addressed_directly(ck, P)
     geometry.r16_translation_offset_in_wide_type(ck, P)
+    geometry.r_coordinate_split_floors(ck, P, 'C04-R18')     # the dither tables are indexed with a reduced coordinate
